@@ -61,14 +61,14 @@ theorem C01_order_binary64 (g : Grid Nat) (hwf : WF sfAlg.toPOps g) (s : PQState
   C01_order sfAlg g hwf s h
 
 /-- what the binary64 model is: correctly rounded (error ≤ half a unit in the last place at the scale
-chosen for the exact product), 53-bit significands, monotone, and closed on [0, 1] (so products of
+chosen for the exact value), 53-bit significands, monotone, and closed on [0, 1] (so products of
 probabilities neither overflow nor leave the format) -/
-theorem C01_binary64_rounding (N k : Nat) :
-    (∃ m, SF.roundTo N k = m * 2 ^ SF.shiftOf (N / 2 ^ k) ∧ m ≤ 2 ^ 53) ∧
-    (∀ t, 2 * (N - SF.roundAt N t * 2 ^ t) ≤ 2 ^ t ∧ 2 * (SF.roundAt N t * 2 ^ t - N) ≤ 2 ^ t) ∧
-    (∀ N', N ≤ N' → SF.roundTo N k ≤ SF.roundTo N' k) ∧
+theorem C01_binary64_rounding (N D : Nat) :
+    (∃ m, SF.roundQ N D = m * 2 ^ SF.shiftOf (N / D) ∧ m ≤ 2 ^ 53) ∧
+    (∀ T, 0 < T → 2 * (N - SF.roundAt N T * T) ≤ T ∧ 2 * (SF.roundAt N T * T - N) ≤ T) ∧
+    (∀ N', N ≤ N' → SF.roundQ N D ≤ SF.roundQ N' D) ∧
     (∀ a b, a ≤ SF.one → b ≤ SF.one → SF.mul a b ≤ SF.one) :=
-  ⟨SF.roundTo_significand N k, fun t => SF.roundAt_half N t, fun _ h => SF.roundTo_mono k h,
+  ⟨SF.roundQ_significand N D, fun T hT => SF.roundAt_half N T hT, fun _ h => SF.roundQ_mono D h,
     SF.mul_le_one⟩
 
 /-- non-vacuity of the binary64 instance: the 2×2 grid 0.5 · {0.5, 0.25}² is well-formed for `sfAlg`, its
